@@ -7,20 +7,20 @@ open Scenic.Det
     (site, iteration order = insertion order, taking the containers it is filled from into account) -/
 def detOrderSites : List (String × Bool) :=
   [ ("requirement.getNameBindings.globals", true),
-    ("requirement.getNameBindings.closures", false),
-    ("requirement.init.cells", false),
+    ("requirement.getNameBindings.closures", true),
+    ("requirement.init.cells", true),
     ("requirement.init.bindings", true),
-    ("requirement.compile.deps", false),
-    ("dynamic.requirementDeps", false),
-    ("dynamic.toScenario", false),
+    ("requirement.compile.deps", true),
+    ("dynamic.requirementDeps", true),
+    ("dynamic.toScenario", true),
     ("scenario.instances", true),
     ("scenario.paramDeps", true),
     ("scenario.behaviorDeps", true),
-    ("scenario.dependencies", false) ]
+    ("scenario.dependencies", true) ]
 
 /-- sites that are themselves iterated in an address-dependent order (root causes) -/
-def detUnorderedRoots : List String := ["requirement.getNameBindings.closures"]
---   requirement.getNameBindings.closures: `set()`
+def detUnorderedRoots : List String := []
+
 
 /-- root causes recorded as known findings (KNOWN_FINDINGS.json / findings.d, keys `unordered-site:<site>`) -/
 def detKnownUnorderedRoots : List String := ["requirement.getNameBindings.closures"]
